@@ -132,9 +132,6 @@ func Gen(t *rapid.T, backend sim.Backend, nClients int) (keys []string, splits [
 					// multi-region layout (known finding C05/reverse-scan-from-end-of-keyspace): always bounded here
 					hi = "~"
 				}
-				if s.Op == "iterrev" && hi == lo {
-					hi = lo + "\x00" // an empty reverse range whose bound is a region border is examined by C05, not here
-				}
 				s.Lo, s.Hi = lo, hi
 			case "lock":
 				n := rapid.IntRange(1, 2).Draw(t, "n")
